@@ -68,6 +68,7 @@ type query struct {
 	Fam  string   `json:"fam,omitempty"` // WalkDir callback family: none|prop|skipdir|skipall|err
 	Idx  int      `json:"idx,omitempty"` // visit index at which the callback acts
 	CbAt string   `json:"cb_at,omitempty"`
+	Sp   string   `json:"spelling,omitempty"` // how Arg is spelled when not in its shortest form (see spellings)
 }
 
 // queryJSON: arguments that are not valid UTF-8 travel in hexadecimal (see entJSON).
@@ -81,10 +82,11 @@ type queryJSON struct {
 	Fam     string   `json:"fam,omitempty"`
 	Idx     int      `json:"idx,omitempty"`
 	CbAt    string   `json:"cb_at,omitempty"`
+	Sp      string   `json:"spelling,omitempty"`
 }
 
 func (q query) MarshalJSON() ([]byte, error) {
-	j := queryJSON{Func: q.Func, Rel: q.Rel, Fam: q.Fam, Idx: q.Idx, CbAt: q.CbAt}
+	j := queryJSON{Func: q.Func, Rel: q.Rel, Fam: q.Fam, Idx: q.Idx, CbAt: q.CbAt, Sp: q.Sp}
 	j.Arg, j.ArgHex = toJSONString(q.Arg)
 
 	for _, s := range q.Segs {
@@ -107,7 +109,7 @@ func (q *query) UnmarshalJSON(b []byte) error {
 		return err
 	}
 
-	*q = query{Func: j.Func, Arg: fromJSONString(j.Arg, j.ArgHex), Segs: j.Segs, Rel: j.Rel, Fam: j.Fam, Idx: j.Idx, CbAt: j.CbAt}
+	*q = query{Func: j.Func, Arg: fromJSONString(j.Arg, j.ArgHex), Segs: j.Segs, Rel: j.Rel, Fam: j.Fam, Idx: j.Idx, CbAt: j.CbAt, Sp: j.Sp}
 
 	if len(j.SegsHex) == len(j.Segs) {
 		for i := range j.Segs {
@@ -642,7 +644,10 @@ func compareWalk(want, got outcome) []diff {
 	seen := map[string]bool{}
 
 	for ; j < n && !seqBroken; j++ {
-		for _, d := range visitDiffs(want.List[j], got.List[j], j == 0) {
+		// the root is visited first and, if it cannot be read, once more
+		root := j == 0 || splitV(want.List[j])[0] == splitV(want.List[0])[0]
+
+		for _, d := range visitDiffs(want.List[j], got.List[j], root) {
 			seqBroken = seqBroken || d.Kind == "visit-seq"
 
 			if key := d.Kind + d.Want + d.Got; !seen[key] {
@@ -812,6 +817,112 @@ func candidatePaths(u universe, depth int) []string {
 	return out
 }
 
+// The spelling dimension. Lesson: a path argument is a string, not a place.
+// Code that lists a directory builds the paths it reports from the argument it
+// was given (root + separator + name, Join(root, name), a pattern cut at its
+// last separator), and filepath.WalkDir / filepath.Glob report the operand as
+// given and everything below it as the CLEANED Join of parent and name. As long
+// as every root, directory and pattern is written in its shortest form,
+// concatenation and Join, cleaning and not cleaning, cutting at a separator and
+// cutting at the last element all give the same strings. So every operand that
+// exists is also asked in the spellings a caller may legitimately use - a
+// leading "./" (absolute: "/./" after the scratch root), an inner "/./", a
+// doubled separator, "x/../" in front (x = its first element), a trailing
+// separator, a trailing "/." - relative and absolute, and the oracle is given
+// the SAME spelling on the tmpfs tree.
+type spelled struct {
+	Class, Arg string
+}
+
+// spellings lists the spellings, other than the shortest, of the path or
+// pattern p (relative to base, without empty elements; "" = base itself). base
+// is the absolute scratch root, or "" for an operand relative to the current
+// directory.
+func spellings(base, p string) []spelled {
+	if p == "" {
+		d := base
+		if d == "" {
+			d = "."
+		}
+
+		return []spelled{{"trail-sep", d + "/"}, {"trail-dot", d + "/."}}
+	}
+
+	pre := ""
+	if base != "" {
+		pre = base + "/"
+	}
+
+	first, _, _ := strings.Cut(p, "/")
+
+	out := []spelled{
+		{"dot-lead", pre + "./" + p},
+		{"dotdot", pre + first + "/../" + p},
+		{"trail-sep", pre + p + "/"},
+		{"trail-dot", pre + p + "/."},
+	}
+
+	if i := strings.LastIndexByte(p, '/'); i >= 0 {
+		out = append(out, spelled{"sep2", pre + p[:i] + "//" + p[i+1:]}, spelled{"dot-inner", pre + p[:i] + "/./" + p[i+1:]})
+	} else if base != "" {
+		out = append(out, spelled{"sep2", base + "//" + p})
+	}
+
+	return out
+}
+
+// sameObject reports whether the spelled operand (a path, or a pattern: then
+// its longest leading part without a magic character, cut at a separator)
+// names for the kernel the very object its cleaned form names - or neither
+// names anything. (cwd = R; in the non-administrator part as that user.)
+//
+// Why the filter: the emulated file systems clean a path lexically BEFORE they
+// resolve it, the kernel walks it element by element. The two differ where an
+// element that is crossed is not a searchable real directory: "f/", "f/." and
+// "f/../f" of a file (ENOTDIR), "l/" and "l/." of a symbolic link (followed),
+// "l/../x" (parent of the target), "d/." of a directory without search
+// permission (EACCES). That is how a path RESOLVES, the subject of C01/C03/C04
+// (recorded there: KF-C04-001, and here KF-C14-002 for Glob), not how what is
+// found below it is ENUMERATED and reported. Such operands are left out unless
+// VERIF_C14_SPELL_ALL is set; every spelling of every operand whose resolution
+// is not in question stays.
+func sameObject(spelled string) bool {
+	if os.Getenv("VERIF_C14_SPELL_ALL") != "" {
+		return true
+	}
+
+	lit := spelled
+
+	if i := strings.IndexAny(spelled, `*?[\`); i >= 0 {
+		switch j := strings.LastIndexByte(spelled[:i], '/'); {
+		case j < 0:
+			return true
+		case j == 0:
+			lit = "/"
+		default:
+			lit = spelled[:j]
+		}
+	}
+
+	a, errA := os.Lstat(lit)
+	b, errB := os.Lstat(filepath.Clean(lit))
+
+	if errA != nil || errB != nil {
+		return errA != nil && errB != nil
+	}
+
+	return os.SameFile(a, b)
+}
+
+// relOperand: the current directory is the base itself.
+func relOperand(p string) string {
+	if p == "." {
+		return ""
+	}
+
+	return p
+}
+
 type qres struct {
 	Q   query
 	Out outcome
@@ -826,6 +937,10 @@ type querySet struct {
 	RelRoots  []string   // WalkDir: relative roots
 	Helpers   []string   // helpers: paths below R
 	HelperArg []string   // helpers: further arguments, verbatim
+
+	// the spelling dimension (see spellings)
+	SpellPats [][]string // Glob: the patterns that are also asked in every spelling, below R and relative to it
+	SpellFams bool       // WalkDir: a spelled root gets every callback family at every visit index (else: the callback that never acts)
 }
 
 // plainQueries: the queries of the plain and the mode trees, over the names of
@@ -839,7 +954,33 @@ func (u universe) plainQueries() querySet {
 		RelRoots:  []string{".", "a"},
 		Helpers:   candidatePaths(u, 3),
 		HelperArg: []string{"$R", "$R/nope", "$R/nope/x", ".", "a", "a/b", ""},
+		SpellPats: spellPatterns(u.SpellSegs, u.SpellMaxSeg),
+		SpellFams: u.SpellFams,
 	}
+}
+
+// spellPatterns: every pattern of <= maxSeg segments over segs.
+func spellPatterns(segs []string, maxSeg int) [][]string {
+	var out [][]string
+
+	cur := [][]string{{}}
+
+	for l := 1; l <= maxSeg && len(segs) > 0; l++ {
+		var next [][]string
+
+		for _, p := range cur {
+			for _, s := range segs {
+				c := make([]string, len(p), len(p)+1)
+				copy(c, p)
+				next = append(next, append(c, s))
+			}
+		}
+
+		out = append(out, next...)
+		cur = next
+	}
+
+	return out
 }
 
 // shapeQueries: the queries of a name-shape tree. Every segment of the shape
@@ -891,6 +1032,7 @@ func (u universe) shapeQueries(es []ent) querySet {
 		RelRoots:  []string{".", first},
 		Helpers:   paths,
 		HelperArg: []string{"$R", "$R/nope", ".", first},
+		SpellFams: u.SpellFams,
 	}
 }
 
@@ -922,30 +1064,73 @@ func oraclePass(R string, qs querySet) []qres {
 		add(query{Func: "Glob", Arg: j, Segs: segs, Rel: true})
 	}
 
+	for _, segs := range qs.SpellPats {
+		j := strings.Join(segs, "/")
+
+		for _, base := range []string{R, ""} {
+			for _, sp := range spellings(base, j) {
+				if sameObject(sp.Arg) {
+					add(query{Func: "Glob", Arg: sp.Arg, Segs: segs, Rel: base == "", Sp: sp.Class})
+				}
+			}
+		}
+	}
+
 	// ReadDir
 	add(query{Func: "ReadDir", Arg: R})
 
+	for _, sp := range spellings(R, "") {
+		if sameObject(sp.Arg) {
+			add(query{Func: "ReadDir", Arg: sp.Arg, Sp: sp.Class})
+		}
+	}
+
 	for _, p := range qs.Dirs {
 		add(query{Func: "ReadDir", Arg: R + "/" + p})
+
+		// every spelling of what exists
+		if _, err := os.Lstat(R + "/" + p); err == nil {
+			for _, sp := range spellings(R, p) {
+				if sameObject(sp.Arg) {
+					add(query{Func: "ReadDir", Arg: sp.Arg, Sp: sp.Class})
+				}
+			}
+		}
 	}
 
 	add(query{Func: "ReadDir", Arg: R + "/nope"})
 
 	for _, p := range qs.RelDirs {
 		add(query{Func: "ReadDir", Arg: p, Rel: true})
+
+		if _, err := os.Lstat(p); err == nil && p != "" {
+			for _, sp := range spellings("", relOperand(p)) {
+				if sameObject(sp.Arg) {
+					add(query{Func: "ReadDir", Arg: sp.Arg, Rel: true, Sp: sp.Class})
+				}
+			}
+		}
 	}
 
 	// WalkDir
 	type root struct {
 		p   string
 		rel bool
+		sp  string
 	}
 
-	roots := []root{{R, false}}
+	roots := []root{{R, false, ""}}
 	missing := false
 
+	for _, sp := range spellings(R, "") {
+		if sameObject(sp.Arg) {
+			roots = append(roots, root{sp.Arg, false, sp.Class})
+		}
+	}
+
 	for _, p := range qs.Roots {
-		if _, err := os.Lstat(R + "/" + p); err != nil {
+		_, err := os.Lstat(R + "/" + p)
+		if err != nil {
 			if missing {
 				continue
 			}
@@ -953,18 +1138,40 @@ func oraclePass(R string, qs querySet) []qres {
 			missing = true // one missing path of the universe
 		}
 
-		roots = append(roots, root{R + "/" + p, false})
+		roots = append(roots, root{R + "/" + p, false, ""})
+
+		// every spelling of what exists
+		if err == nil {
+			for _, sp := range spellings(R, p) {
+				if sameObject(sp.Arg) {
+					roots = append(roots, root{sp.Arg, false, sp.Class})
+				}
+			}
+		}
 	}
 
-	roots = append(roots, root{R + "/nope", false})
+	roots = append(roots, root{R + "/nope", false, ""})
 
 	for _, p := range qs.RelRoots {
-		roots = append(roots, root{p, true})
+		roots = append(roots, root{p, true, ""})
+
+		if _, err := os.Lstat(p); err == nil {
+			for _, sp := range spellings("", relOperand(p)) {
+				if sameObject(sp.Arg) {
+					roots = append(roots, root{sp.Arg, true, sp.Class})
+				}
+			}
+		}
 	}
 
 	for _, r := range roots {
-		base := add(query{Func: "WalkDir", Arg: r.p, Rel: r.rel, Fam: "none", Idx: -1})
-		add(query{Func: "WalkDir", Arg: r.p, Rel: r.rel, Fam: "prop", Idx: -1})
+		base := add(query{Func: "WalkDir", Arg: r.p, Rel: r.rel, Fam: "none", Idx: -1, Sp: r.sp})
+
+		if r.sp != "" && !qs.SpellFams {
+			continue
+		}
+
+		add(query{Func: "WalkDir", Arg: r.p, Rel: r.rel, Fam: "prop", Idx: -1, Sp: r.sp})
 
 		for _, fam := range []string{"skipdir", "skipall", "err"} {
 			for i := 0; i <= len(base.List); i++ {
@@ -981,7 +1188,7 @@ func oraclePass(R string, qs querySet) []qres {
 					}
 				}
 
-				add(query{Func: "WalkDir", Arg: r.p, Rel: r.rel, Fam: fam, Idx: i, CbAt: at})
+				add(query{Func: "WalkDir", Arg: r.p, Rel: r.rel, Fam: fam, Idx: i, CbAt: at, Sp: r.sp})
 			}
 		}
 	}
